@@ -371,3 +371,17 @@ def kernel_correspondence(ck, tier, seed, pid):
 
 def props(ck):
     return check_props(ck, 'theories/TypeKernel/Props.v')
+
+
+# text for the evidence file of the calling check
+CHECKER_CMD = 'make -C /verif/coq theories/TypeKernel/Props.vo (coqc 8.16.1) + Print Assumptions per theorem'
+TRUSTED = ('hand-written model theories/TypeKernel/Model.v of type_system.rs (contains_placeholder, assignability_check, '
+           'type_meet, subst_type, solve_multiple_type_constrains); reasons abstracted to (use_loc, def_loc) numbers, '
+           'module/class/type-variable names to numbers, the error stack is not modelled; tie: generated type trees '
+           'through the samlang_verif hook samlang_checker::verif, answers compared in full (reasons included) by '
+           'TypeKernel.Corr.kbad under vm_compute')
+RULE = ('type trees of depth <= 3 over 2 modules x 3 class names x arities 0-2, 3 type-variable names, 3 primitives, Any with '
+        'both placeholder flags, function types; pairs equal up to reasons / one node apart / two nodes apart / independent; '
+        'substitutions of 0-3 names; solver constraints where the concrete type is an instance of the generic type, '
+        'exactly or up to one or two node mutations; class-statics nominal types carry type arguments only in '
+        'subst/solve/placeholder cases (assignability failure on them trips a debug assertion in to_description)')
